@@ -776,7 +776,8 @@ func (vc *VC) ifaceCall(callee *types.Func, key string, recv Term, args []Value,
 // function application.
 func (vc *VC) ifaceFn(key string, sig *types.Signature, k int, recv Term, args []Value, pos token.Pos) Term {
 	res := vc.ifaceFnTerm(key, sig, k, recv, args, pos)
-	if f := vc.rangeFacts(res, res.T, 0); f.S != "true" {
+	if f := vc.rangeFacts(res, res.T, 0); f.S != "true" && !strings.Contains(res.S, "?") {
+		// (terms over bound variables get their range facts from the quantifier)
 		vc.assume(tBool(true), f)
 	}
 	vc.maybeDispatch(key, sig)
@@ -852,7 +853,7 @@ func (vc *VC) maybeDispatch(key string, sig *types.Signature) {
 	name := key[strings.LastIndex(key, ".")+1:]
 	// dispatching over the implementers presumes the closed world
 	vc.closedWorld(Term{"nil." + string(isort), isort, ifaceT}, ifaceT)
-	for _, T := range vc.w.implementers(iface, typeKey(ifaceT)) {
+	for _, T := range vc.w.implementers(iface, typeKey(ifaceT), ifaceT) {
 		n, ok := derefNamed(T)
 		if !ok {
 			continue
